@@ -321,4 +321,20 @@ def inttAvx (r : RedC) (levels : List LevelC) (j : Nat) (chunks : List (List W))
     let w := (invLevelwiseBV r (asc.drop j) blocks).flatten
     List.zipWith (fun x po => iterFirst r last.m x po) w last.tw
 
+/-! ### `b_to_znx128_avx2`, one coefficient -/
+
+/-- the scalar tail on the `u128` sum `v`: `q_approx = v >> 120`, `v -= TOTAL_Q_MULT[q_approx]` (a four-entry table: a larger index is
+an index panic), one conditional `-= TOTAL_Q`, symmetric lift with `half_q = TOTAL_Q.div_ceil(2)` -/
+def crtTail (totalQ : Nat) (v : BitVec 128) : Int :=
+  let qa := (v >>> 120).toNat
+  let v1 := v - BitVec.ofNat 128 ([0, totalQ, totalQ * 2, totalQ * 3].getD qa 0)
+  let v2 := if BitVec.ofNat 128 totalQ ≤ v1 then v1 - BitVec.ofNat 128 totalQ else v1
+  if BitVec.ofNat 128 ((totalQ + 1) / 2) ≤ v2 then (v2.toNat : Int) - (totalQ : Int) else (v2.toNat : Int)
+
+/-- one iteration of the loop of `b_to_znx128_avx2`: the word `x` (four prime lanes) ↦ the `i128` coefficient -/
+def bToZnx128AvxCoef (x q mu p32 p16 crt hi mid lo : V4) (totalQ : Nat) : Int :=
+  let t : V4 := ⟨reduceBAndApplyCrt x.l0 q.l0 mu.l0 p32.l0 p16.l0 crt.l0, reduceBAndApplyCrt x.l1 q.l1 mu.l1 p32.l1 p16.l1 crt.l1,
+                 reduceBAndApplyCrt x.l2 q.l2 mu.l2 p32.l2 p16.l2 crt.l2, reduceBAndApplyCrt x.l3 q.l3 mu.l3 p32.l3 p16.l3 crt.l3⟩
+  crtTail totalQ (crtAccumulate t hi mid lo)
+
 end Avx.Ntt
